@@ -149,8 +149,8 @@ fn host_function_phase(threads: usize, rounds: usize) {
             }
         });
         root.add_function("boom", |x: i64| -> i64 {
-            if x == 13 {
-                panic!("host function panics on 13");
+            if x == 13 || x >= 100 {
+                panic!("host function panics on <{x}>");
             }
             x
         });
@@ -188,10 +188,19 @@ fn host_function_phase(threads: usize, rounds: usize) {
                     let inner = root.new_inner_scope();
                     for r in 0..rounds.min(40) {
                         if (t + r) % 3 == 0 {
-                            // an execution whose host function panics: the panic reaches the host
-                            let r = std::panic::catch_unwind(std::panic::AssertUnwindSafe(|| bomb.execute(&inner)));
-                            if r.is_ok() {
-                                *bad.lock().unwrap() = Some("boom(13) returned although its host function panicked".into());
+                            // an execution whose host function panics: the host sees that panic (or,
+                            // should the interpreter ever turn panics into errors, that error) -
+                            // with its own message, not that of another thread's execution
+                            let _ = std::panic::catch_unwind(std::panic::AssertUnwindSafe(|| bomb.execute(&inner)));
+                            let own = 100 + t as i64;
+                            let mine = Program::compile(&format!("[{own}].map(v, boom(v))")).unwrap();
+                            let text = match std::panic::catch_unwind(std::panic::AssertUnwindSafe(|| mine.execute(&inner))) {
+                                Ok(Ok(v)) => format!("value {v:?}"),
+                                Ok(Err(e)) => format!("error {e} / {e:?}"),
+                                Err(p) => format!("panic {}", p.downcast_ref::<String>().cloned().or_else(|| p.downcast_ref::<&str>().map(|s| s.to_string())).unwrap_or_default()),
+                            };
+                            if !text.contains(&format!("<{own}>")) {
+                                *bad.lock().unwrap() = Some(format!("thread {t} round {r}: `[{own}].map(v, boom(v))`, whose host function panics with a message naming <{own}>, came back as: {text}"));
                             }
                         }
                         for (s, p, e) in table.iter() {
